@@ -412,6 +412,17 @@ type CasingCase struct {
 	Keys     []string `json:"keys"` // wire spelling of metadata keys
 	Fail     bool     `json:"fail"`
 	Lookup   string   `json:"lookup"` // how the application spells the key: canonical | lower | upper
+	// Dup: the first key appears a second time on the wire in another casing,
+	// with its own value; both values belong to the same field
+	Dup bool `json:"dup,omitempty"`
+}
+
+// otherCasing returns a spelling of k that differs from k only in case.
+func otherCasing(k string) string {
+	if u := strings.ToUpper(k); u != k {
+		return u
+	}
+	return strings.ToLower(k)
 }
 
 func respell(k, how string) string {
@@ -441,11 +452,17 @@ func checkCasing(tt *testing.T, c CasingCase) (pbt.Info, error) {
 		for i, k := range c.Keys {
 			fmt.Fprintf(&blk, "%s: v%d\r\n", k, i)
 		}
+		if c.Dup {
+			fmt.Fprintf(&blk, "%s: dup\r\n", otherCasing(c.Keys[0]))
+		}
 		body = refwire.AppendFrame(body, 0x80, []byte(blk.String()))
 	} else {
 		var md []string
 		for i, k := range c.Keys {
 			md = append(md, fmt.Sprintf("%q:[\"v%d\"]", k, i))
+		}
+		if c.Dup {
+			md = append(md, fmt.Sprintf("%q:[\"dup\"]", otherCasing(c.Keys[0])))
 		}
 		end := `{"metadata":{` + strings.Join(md, ",") + `}}`
 		if c.Fail {
@@ -486,6 +503,19 @@ func checkCasing(tt *testing.T, c CasingCase) (pbt.Info, error) {
 				found = true
 			}
 		}
+		if i == 0 && c.Dup {
+			info.NonTrivial = true
+			info.Label("same-field-in-two-casings")
+			hasDup := false
+			for _, g := range got {
+				if g == "dup" {
+					hasDup = true
+				}
+			}
+			if !hasDup {
+				return info, fmt.Errorf("%s: the field also arrived spelled %q with value \"dup\", but Values(%q) = %q lacks it — two spellings of one field name are one field", where, otherCasing(k), respell(k, c.Lookup), got)
+			}
+		}
 		if !found {
 			return info, fmt.Errorf("%s: %s.Values(%q) = %q lacks %q (all metadata: %v) — HTTP field names are case-insensitive", where, map[bool]string{true: "err.Meta()", false: "ResponseTrailer()"}[c.Fail], respell(k, c.Lookup), got, want, md)
 		}
@@ -509,6 +539,7 @@ var specCasing = pbt.Spec[CasingCase]{
 			}
 			c.Keys = append(c.Keys, string(b))
 		}
+		c.Dup = rapid.IntRange(0, 2).Draw(t, "dup") == 0
 		return c
 	},
 	Check: checkCasing,
